@@ -107,6 +107,62 @@ impl<H: ElementHasher<BaseField = BaseElement> + Sync> RandomCoin for RecCoin<H>
     }
 }
 
+/// A coin for a *malicious prover*: the same algorithm as DefaultRandomCoin written out over the public hasher
+/// API, without draw_integers' argument assertions - so that proofs can be produced for option sets the honest
+/// prover panics on (number of queries >= LDE domain size). The verifier under test uses the real coin.
+struct LenientCoin<H: ElementHasher<BaseField = BaseElement>> {
+    seed: H::Digest,
+    counter: u64,
+}
+
+impl<H: ElementHasher<BaseField = BaseElement>> LenientCoin<H> {
+    fn next(&mut self) -> H::Digest {
+        self.counter += 1;
+        H::merge_with_int(self.seed, self.counter)
+    }
+}
+
+impl<H: ElementHasher<BaseField = BaseElement> + Sync> RandomCoin for LenientCoin<H> {
+    type BaseField = BaseElement;
+    type Hasher = H;
+
+    fn new(seed: &[BaseElement]) -> Self {
+        Self { seed: H::hash_elements(seed), counter: 0 }
+    }
+
+    fn reseed(&mut self, data: H::Digest) {
+        self.seed = H::merge(&[self.seed, data]);
+        self.counter = 0;
+    }
+
+    fn check_leading_zeros(&self, value: u64) -> u32 {
+        let bytes = H::merge_with_int(self.seed, value).as_bytes();
+        u64::from_le_bytes(bytes[..8].try_into().unwrap()).trailing_zeros()
+    }
+
+    fn draw<E: FieldElement<BaseField = BaseElement>>(&mut self) -> Result<E, RandomCoinError> {
+        for _ in 0..1000 {
+            let value = self.next();
+            if let Some(e) = E::from_random_bytes(&value.as_bytes()[..E::ELEMENT_BYTES]) {
+                return Ok(e);
+            }
+        }
+        Err(RandomCoinError::FailedToDrawFieldElement(1000))
+    }
+
+    fn draw_integers(&mut self, num_values: usize, domain_size: usize, nonce: u64) -> Result<Vec<usize>, RandomCoinError> {
+        self.seed = H::merge_with_int(self.seed, nonce);
+        self.counter = 0;
+        let mask = (domain_size - 1) as u64;
+        let mut values = Vec::new();
+        while values.len() < num_values.min(1000) {
+            let bytes: [u8; 8] = self.next().as_bytes()[..8].try_into().unwrap();
+            values.push((u64::from_le_bytes(bytes) & mask) as usize);
+        }
+        Ok(values)
+    }
+}
+
 // PUBLIC INPUTS: first value of the main column
 // =================================================================================================
 #[derive(Clone, Copy, Debug)]
@@ -290,17 +346,21 @@ impl Air for TestAir {
 
 // PROVER
 // =================================================================================================
-struct TestProver<H: ElementHasher<BaseField = BaseElement>> {
+struct TestProver<H: ElementHasher<BaseField = BaseElement>, R = RecCoin<H>> {
     options: ProofOptions,
-    _h: core::marker::PhantomData<H>,
+    _h: core::marker::PhantomData<(H, R)>,
 }
 
-impl<H: ElementHasher<BaseField = BaseElement> + Sync> Prover for TestProver<H> {
+impl<H, R> Prover for TestProver<H, R>
+where
+    H: ElementHasher<BaseField = BaseElement> + Sync,
+    R: RandomCoin<BaseField = BaseElement, Hasher = H> + Send,
+{
     type BaseField = BaseElement;
     type Air = TestAir;
     type Trace = TestTrace;
     type HashFn = H;
-    type RandomCoin = RecCoin<H>;
+    type RandomCoin = R;
     type TraceLde<E: FieldElement<BaseField = BaseElement>> = DefaultTraceLde<E, H>;
     type ConstraintEvaluator<'a, E: FieldElement<BaseField = BaseElement>> = DefaultConstraintEvaluator<'a, TestAir, E>;
 
@@ -576,7 +636,7 @@ fn run_hasher<H: ElementHasher<BaseField = BaseElement> + Sync>(tag: &str, damag
     for (ci, (shape, trace_len, num_aux_rands, o)) in grid().into_iter().enumerate() {
         let what = format!("hasher={tag} shape={shape:?} trace_len={trace_len} aux_rands={num_aux_rands} options={o:?}");
         let start = 3 + (seed() as u32 % 1000) + ci as u32;
-        let prover = TestProver::<H> { options: o.clone(), _h: core::marker::PhantomData };
+        let prover = TestProver::<H, RecCoin<H>> { options: o.clone(), _h: core::marker::PhantomData };
         take_log();
         let proof = match catch_unwind(AssertUnwindSafe(|| prover.prove(TestTrace::new(shape, trace_len, num_aux_rands, start)))) {
             Ok(Ok(p)) => p,
@@ -657,6 +717,43 @@ fn run_hasher<H: ElementHasher<BaseField = BaseElement> + Sync>(tag: &str, damag
     }
 }
 
+/// proofs only a malicious prover produces: option sets at and beyond the edge "number of queries < LDE domain
+/// size" (the honest prover panics beyond it); the verifier must answer, never panic (C06)
+fn crafted_query_counts<H: ElementHasher<BaseField = BaseElement> + Sync>(tag: &str, c: &mut Counts) {
+    for shape in [Shape::Single, Shape::Aux, Shape::Lagrange] {
+        for (trace_len, blowup) in [(8usize, 2usize), (8, 4), (16, 2)] {
+            let domain = trace_len * blowup;
+            for queries in [domain - 1, domain, domain + 1, 255] {
+                let o = ProofOptions::new(queries, blowup, 0, FieldExtension::Quadratic, 2, 1);
+                let what = format!("hasher={tag} shape={shape:?} trace_len={trace_len} options={o:?}");
+                let start = 11 + seed() as u32 % 1000;
+                // (the test AIR's aux constraint needs blowup >= 2: degree 1)
+                let prover = TestProver::<H, LenientCoin<H>> { options: o.clone(), _h: core::marker::PhantomData };
+                let proof = match catch_unwind(AssertUnwindSafe(|| prover.prove(TestTrace::new(shape, trace_len, 2, start)))) {
+                    Ok(Ok(p)) => p,
+                    // the prover's own code may refuse such options elsewhere: then there is nothing to verify
+                    _ => continue,
+                };
+                let bytes = proof.to_bytes();
+                c.damaged += 1;
+                take_log();
+                match catch_unwind(AssertUnwindSafe(|| match Proof::from_bytes(&bytes) {
+                    Ok(p) => verify_as::<H>(p, start).is_ok(),
+                    Err(_) => false,
+                })) {
+                    Ok(true) => {},
+                    Ok(false) if queries < domain => fail(format!("honest proof with {queries} queries on a domain of {domain} rejected: {what}")),
+                    Ok(false) => {},
+                    Err(_) => fail(format!(
+                        "verifying a proof with {queries} queries on an LDE domain of {domain} panicked at {}: {what}",
+                        last_panic()
+                    )),
+                }
+            }
+        }
+    }
+}
+
 #[test]
 fn lagrange_pipeline_bounded() {
     std::panic::set_hook(Box::new(|info| {
@@ -666,6 +763,7 @@ fn lagrange_pipeline_bounded() {
     let mut c = Counts { proofs: 0, damaged: 0, air_refusals: 0, transcripts: 0 };
     run_hasher::<Blake3_256<BaseElement>>("blake3_256", 10, &mut c);
     run_hasher::<Rp64_256>("rp64_256", 2, &mut c);
+    crafted_query_counts::<Blake3_256<BaseElement>>("blake3_256", &mut c);
     println!(
         "NB-RESULT name=lagrange_pipeline_bounded proofs={} transcripts_compared={} damaged_proofs={} refused_by_test_air={}",
         c.proofs, c.transcripts, c.damaged, c.air_refusals
